@@ -212,13 +212,18 @@ func (c *Ctx) Finish() int {
 		ids = append(ids, id)
 	}
 	sort.Strings(ids)
-	for _, id := range ids {
-		for _, k := range c.known {
-			if k.ID == id {
-				fmt.Printf("KNOWN-FINDING: property=%s %s (%s)\n", c.ID, k.What, k.ID)
-			}
+	// one line for every finding listed for this property (the file is read, never written); whether the
+	// sampled inputs of this run reproduced it is recorded in the evidence
+	var listed []string
+	for _, k := range c.known {
+		listed = append(listed, k.ID)
+		how := "reproduced in this run"
+		if !c.knownHit[k.ID] {
+			how = "listed; not among the inputs sampled by this run"
 		}
+		fmt.Printf("KNOWN-FINDING: property=%s %s (%s; %s)\n", c.ID, k.What, k.ID, how)
 	}
+	sort.Strings(listed)
 	cov := c.cov
 	cov["evaluations"] = c.evals
 	cov["distinct_nontrivial"] = int64(len(c.nontriv))
@@ -232,6 +237,9 @@ func (c *Ctx) Finish() int {
 	}
 	if len(c.notes) > 0 {
 		cov["notes"] = c.notes
+	}
+	if len(listed) > 0 {
+		cov["known_findings_listed"] = listed
 	}
 	if len(c.knownHit) > 0 {
 		cov["known_findings_reproduced"] = ids
